@@ -4,7 +4,11 @@
 // in-memory database) sits behind the StateModule; no mock is involved. The case's trie is the state of
 // block 1 (queried by state root resp. block hash); the best block (genesis) holds a decoy state.
 //
-// input:   rpc <ver:0|1> <entries> <query> <query> ...
+// input:   rpc|rpcdb <ver:0|1> <entries> <query> <query> ...
+//   rpc:   the case's trie is cached in the StorageState's Tries (the state of a recent block);
+//   rpcdb: the trie was stored with StoreTrie by another StorageState sharing the database and is NOT
+//          cached: the first query loads it from the database (loadTrie -> LoadFromDB; GetStorage ->
+//          GetFromDB or the freshly cached trie), as for the state of an old block.
 //   <entries> := <key>=<value>,... | ()            (Put in the given order; keys/values hex, "-" = empty)
 //   query :=  KP:<prefix>:<qty>        page through state_getKeysPaged from AfterKey "" with the last key
 //                                      returned as the next AfterKey until a page is shorter than qty
@@ -14,7 +18,8 @@
 //                                      -> <page>
 //             PR:<prefix>|PR:nil|PR:empty|PR:0x   state_getPairs with a prefix, a nil prefix, "" and "0x"
 //                                      -> <key>=<value>,... | ()   (sorted by key for nil/empty/0x: Go map order)
-//   prefixes are hex without 0x ("-" = the empty prefix, sent as "0x"); qty is hex.
+//   prefixes are hex without 0x ("-" = the empty prefix, sent as "0x"; "empty" = the empty string "",
+//   which GetKeysPaged itself turns into "0x"); qty is hex.
 // observed: one token per query; "err" if the RPC method returned an error; a panic ends the case.
 package modules
 
@@ -30,6 +35,7 @@ import (
 	"github.com/ChainSafe/gossamer/internal/database"
 	vu "github.com/ChainSafe/gossamer/internal/verifutil"
 	"github.com/ChainSafe/gossamer/lib/common"
+	rtstorage "github.com/ChainSafe/gossamer/lib/runtime/storage"
 	"github.com/ChainSafe/gossamer/pkg/trie"
 	"github.com/ChainSafe/gossamer/pkg/trie/inmemory"
 )
@@ -40,7 +46,7 @@ func (c38Telemetry) SendMessage(_ json.Marshaler) {}
 
 var c38Dir string
 
-func c38Module(ver string, entries string) (sm *StateModule, root common.Hash, bhash common.Hash, n int, closer func(), err error) {
+func c38Module(mode, ver string, entries string) (sm *StateModule, root common.Hash, bhash common.Hash, n int, closer func(), err error) {
 	tr := inmemory.NewEmptyTrie()
 	if ver == "1" {
 		tr.SetVersion(trie.V1)
@@ -75,7 +81,9 @@ func c38Module(ver string, entries string) (sm *StateModule, root common.Hash, b
 	}
 	tries := state.NewTries()
 	tries.SetTrie(decoy)
-	tries.SetTrie(tr)
+	if mode != "rpcdb" {
+		tries.SetTrie(tr)
+	}
 	genesis := types.NewHeader(common.Hash{}, decoyRoot, trie.EmptyHash, 0, types.NewDigest())
 	bs, err := state.NewBlockStateFromGenesis(db, tries, genesis, c38Telemetry{})
 	if err != nil {
@@ -88,6 +96,17 @@ func c38Module(ver string, entries string) (sm *StateModule, root common.Hash, b
 	ss, err := state.NewStorageState(db, bs, tries)
 	if err != nil {
 		return
+	}
+	if mode == "rpcdb" {
+		// another StorageState (own Tries cache) stores the trie into the shared database
+		writer, werr := state.NewStorageState(db, bs, state.NewTries())
+		if werr != nil {
+			err = werr
+			return
+		}
+		if err = writer.StoreTrie(rtstorage.NewTrieState(tr), nil); err != nil {
+			return
+		}
 	}
 	bhash = header.Hash()
 	sm = NewStateModule(nil, ss, nil, nil)
@@ -108,6 +127,9 @@ func c38Page(p []string) string {
 func c38Prefix(p string) string {
 	if p == "-" {
 		return "0x"
+	}
+	if p == "empty" {
+		return ""
 	}
 	return "0x" + p
 }
@@ -194,10 +216,10 @@ func c38Query(sm *StateModule, root, bhash common.Hash, n int, q string) string 
 
 func c38Run(in string) (out string) {
 	f := strings.Split(in, " ")
-	if len(f) < 3 || f[0] != "rpc" {
+	if len(f) < 3 || (f[0] != "rpc" && f[0] != "rpcdb") {
 		return "err:badinput"
 	}
-	sm, root, bhash, n, closer, err := c38Module(f[1], f[2])
+	sm, root, bhash, n, closer, err := c38Module(f[0], f[1], f[2])
 	if closer != nil {
 		defer closer()
 	}
@@ -270,7 +292,11 @@ func c38GenCase(r *vu.RNG) string {
 		alph = [][]byte{{0x00, 0x01}, {0x10, 0x1f}, {0x00, 0x10}, {0xf0, 0xff}}[r.Intn(4)]
 	}
 	var b strings.Builder
-	fmt.Fprintf(&b, "rpc %d ", r.Intn(2))
+	mode := "rpc"
+	if r.Chance(1, 4) {
+		mode = "rpcdb"
+	}
+	fmt.Fprintf(&b, "%s %d ", mode, r.Intn(2))
 	nk := r.Intn(14)
 	set := map[string]bool{}
 	keys := []string{}
@@ -307,19 +333,23 @@ func c38GenCase(r *vu.RNG) string {
 				m++
 			}
 		}
+		ptok := vu.Hex(p)
+		if len(p) == 0 && r.Chance(1, 3) {
+			ptok = "empty" // Prefix "" in the request
+		}
 		switch r.Intn(6) {
 		case 0, 1, 2:
 			qty := 1 + r.Intn(m+2)
 			if r.Chance(1, 15) {
 				qty = 0
 			}
-			fmt.Fprintf(&b, " KP:%s:%s", vu.Hex(p), vu.X(uint64(qty)))
+			fmt.Fprintf(&b, " KP:%s:%s", ptok, vu.X(uint64(qty)))
 		case 3:
 			after := "nil"
 			if r.Chance(3, 4) {
 				after = vu.Hex(c38Key(r, alph, keys))
 			}
-			fmt.Fprintf(&b, " K1:%s:%s:%s", vu.Hex(p), vu.X(uint64(r.Intn(m+3))), after)
+			fmt.Fprintf(&b, " K1:%s:%s:%s", ptok, vu.X(uint64(r.Intn(m+3))), after)
 		default:
 			switch r.Intn(6) {
 			case 0:
@@ -341,11 +371,18 @@ func c38GenCase(r *vu.RNG) string {
 }
 
 func c38Generate(r *vu.RNG, n int, emit func(string)) {
+	// verifutil.NewRNG(seed) starts at seed*golden+c and U64 advances by golden, so the streams of seed s and
+	// s+1 are the same stream shifted by one draw; re-seeding from a mixed output decorrelates the seeds
+	r = r.Fork()
 	for _, s := range []string{
 		"rpc 0 () KP:-:1 KP:-:0 PR:nil PR:empty PR:0x PR:00 K1:-:3:nil",
 		"rpc 0 1001=aa,1f02=bb KP:10:1 KP:10:5 PR:10",
 		"rpc 1 -=01,00=02,0000=03,0001=04,01=05 KP:-:1 KP:-:2 KP:00:1 KP:00:7 PR:00 PR:0000 K1:-:2:00 K1:-:9:-",
 		"rpc 0 1245=01,1255=02 KP:13:2 KP:1345:2 PR:13",
+		"rpc 0 01=aa,02=bb,0201=cc KP:empty:1 KP:empty:2 K1:empty:2:01 K1:empty:5:nil",
+		"rpcdb 0 01=aa,02=bb,0201=cc KP:-:1 PR:02 PR:nil K1:02:5:nil",
+		"rpcdb 1 01=aa,02=000102030405060708090a0b0c0d0e0f101112131415161718191a1b1c1d1e1f20,0201=cc PR:02 KP:-:2 PR:nil",
+		"rpcdb 0 () KP:-:1 PR:nil PR:01",
 	} {
 		emit(s)
 	}
